@@ -84,7 +84,7 @@ def run(ctx):
     rule_d(ctx)
     common.selftest(ctx, "C08.a", ["neg_i16", "add_i16", "abs_i16", "wrapping_i16"], rule_a)
     common.selftest(ctx, "C08.c", ["float_cast"], rule_c)
-    if ctx.tier == "thorough":
+    if ctx.tier == "thorough" and ctx.cfg == "dev":
         rel_config(ctx)
 
 
